@@ -816,6 +816,66 @@ STARTS_T = STARTS_Q + [((1, 1, 1, 32), "int8"), ((1, 2, 2, 17), "int8"), ((1, 33
                        ((1, 8, 8, 32), "uint8"), ((1, 33, 33, 8), "int16"), ((2, 8, 8, 8), "int8"), ((1, 32, 32, 16), "int8")]
 
 
+def _conv_geom(net, kind, kh, kw, sh, sw, pad, cout):
+    """convolution with an arbitrary kernel / stride geometry (rectangular kernels, strides beyond 3)"""
+    if not _hw4(net):
+        return False
+    x = net.cur
+    t = net.T(x)
+    n, h, w, c = t["shape"]
+    oh, ow = _out_hw(h, kh, sh, 1, pad), _out_hw(w, kw, sw, 1, pad)
+    if oh <= 0 or ow <= 0:
+        return False
+    dt = t["dtype"]
+    wdt = _wdtype(dt)
+    if kind == "conv":
+        wshape = [cout, kh, kw, c]
+    else:
+        cout = c
+        wshape = [1, kh, kw, c]
+    wi = net.const(wshape, wdt, "weights", scale=[0.004], zp=0 if wdt == "int8" else 121)
+    bi = net.const([cout], "int32" if dt != "int16" else "int64", "bias", scale=[net.scale(x) * 0.004], zp=0)
+    y = net.act([n, oh, ow, cout], dt)
+    if kind == "conv":
+        net.op("CONV_2D", [x, wi, bi], [y], ("Conv2DOptions", dict(Padding=pad, StrideW=sw, StrideH=sh, FusedActivationFunction=0, DilationWFactor=1, DilationHFactor=1)))
+    else:
+        net.op("DEPTHWISE_CONV_2D", [x, wi, bi], [y], ("DepthwiseConv2DOptions", dict(Padding=pad, StrideW=sw, StrideH=sh, DepthMultiplier=1, FusedActivationFunction=0, DilationWFactor=1, DilationHFactor=1)))
+    return True
+
+
+def _pool_geom(net, op, kh, kw, sh, sw, pad):
+    if not _hw4(net):
+        return False
+    x = net.cur
+    n, h, w, c = net.T(x)["shape"]
+    oh, ow = _out_hw(h, kh, sh, 1, pad), _out_hw(w, kw, sw, 1, pad)
+    if oh <= 0 or ow <= 0:
+        return False
+    y = net.act([n, oh, ow, c], net.T(x)["dtype"], q=(net.scale(x), net.zp(x)))
+    net.op(op, [x], [y], ("Pool2DOptions", dict(Padding=pad, StrideW=sw, StrideH=sh, FilterWidth=kw, FilterHeight=kh, FusedActivationFunction=0)))
+    return True
+
+
+def param_instance(name):
+    """parametrised instances, written so that the name is its own description:
+       convg.k<kh>x<kw>.s<sh>x<sw>.<S|V>.c<cout>   dwg.k..s..<S|V>   maxg.k..s..<S|V>   avgg.k..s..<S|V>"""
+    parts = name.split(".")
+    kind = parts[0]
+    kh, kw = map(int, parts[1][1:].split("x"))
+    sh, sw = map(int, parts[2][1:].split("x"))
+    pad = PAD_SAME if parts[3] == "S" else PAD_VALID
+    if kind == "convg":
+        cout = int(parts[4][1:])
+        return lambda n: _conv_geom(n, "conv", kh, kw, sh, sw, pad, cout)
+    if kind == "dwg":
+        return lambda n: _conv_geom(n, "dw", kh, kw, sh, sw, pad, None)
+    if kind == "maxg":
+        return lambda n: _pool_geom(n, "MAX_POOL_2D", kh, kw, sh, sw, pad)
+    if kind == "avgg":
+        return lambda n: _pool_geom(n, "AVERAGE_POOL_2D", kh, kw, sh, sw, pad)
+    raise KeyError(name)
+
+
 def build(history, seed=0):
     """history = dict(start=(shape, dtype), steps=[instance names]).  Returns model dict or None if a step does not apply."""
     net = Net(seed)
@@ -825,7 +885,7 @@ def build(history, seed=0):
     net.open.append(x)
     net.cur = x
     for s in history["steps"]:
-        f, _ = INSTANCES[s]
+        f = INSTANCES[s][0] if s in INSTANCES else param_instance(s)
         if not f(net):
             return None
     return net.model()
